@@ -6,8 +6,8 @@
    as approximations of exp(-iHt), local solver accuracy, the regularised inverse, allclose termination. *)
 From Coq Require Import QArith Qabs ZArith List Arith Bool Qcanon.
 Import ListNotations.
-From RV Require Import Base.CRing Gen.RkTableaux Gen.StepCtlConsts Model.Rk Model.Prop Model.StepCtl Model.PsSweep
-                       Proofs.PropProofs Proofs.StepCtlProofs Proofs.PsSweepProofs.
+From RV Require Import Base.CRing Gen.RkTableaux Gen.StepCtlConsts Gen.StepCtlGen Model.Rk Model.Prop Model.StepCtl Model.PsSweep
+                       Model.Trunc Gen.Trunc Model.Dims Proofs.PropProofs Proofs.StepCtlProofs Proofs.PsSweepProofs Proofs.DimsProofs.
 Close Scope Q_scope.
 Close Scope Qc_scope.
 
@@ -204,6 +204,35 @@ Proof.
 Qed.
 Print Assumptions C09_tdrk_offset_is_accepted_time.
 
+(* the loops all controller theorems are about are the iteration of the step functions GENERATED from the loop bodies of the
+   source (tx/stepctlgen.py -> Gen/StepCtlGen.v: every comparison, min / max / min_abs, update formula, order of tests): *)
+Theorem C09_controllers_are_generated_steps : forall (est : estimate) target f it g x,
+  (tdvp_loop (S f) est target it g x =
+     let dt := tdvp_dt_gen g x target in
+     let ev acc := {| e_dt := dt; e_acc := acc; e_pos := x; e_guess := g |} in
+     match tdvp_step_gen g x target dt (est it x dt) with
+     | Reject g' => consE (ev false) (tdvp_loop f est target (S it) g' x)
+     | Sub g' x' => consE (ev true) (tdvp_loop f est target (S it) g' x')
+     | Final gf => Some ([ev true], gf) end)
+  /\ (pc_loop (S f) est it g x =
+     let dt := pc_dt_gen g x x in
+     let ev acc := {| e_dt := dt; e_acc := acc; e_pos := x; e_guess := g |} in
+     match pc_step_gen g x x dt (est it x dt) with
+     | Reject g' => consE (ev false) (pc_loop f est (S it) g' x)
+     | Sub g' x' => consE (ev true) (pc_loop f est (S it) g' x')
+     | Final gf => Some ([ev true], gf) end)
+  /\ (tdrk_loop (S f) est target it g x =
+     let dt := tdrk_dt_gen g x target in
+     let ev acc := {| e_dt := dt; e_acc := acc; e_pos := x; e_guess := g |} in
+     match tdrk_step_gen g x target dt (est it x dt) with
+     | Reject g' => consE (ev false) (tdrk_loop f est target (S it) g' x)
+     | Sub g' x' => consE (ev true) (tdrk_loop f est target (S it) g' x')
+     | Final gf => Some ([ev true], gf) end).
+Proof.
+  exact (fun est target f it g x => conj (tdvp_loop_gen est target f it g x) (conj (pc_loop_gen est f it g x) (tdrk_loop_gen est target f it g x))).
+Qed.
+Print Assumptions C09_controllers_are_generated_steps.
+
 (* non-vacuity: a run with one rejection and four accepted steps (target 1, guess 1) *)
 Example C09_controller_runs :
   exists tr g', tdvp_run 10 est_reject_once 1 1 = Some (tr, g') /\ length tr = 5%nat /\ same_dir 1 1.
@@ -257,6 +286,57 @@ Theorem C09_dims_le_limit_ps1 : forall (qr_rank : nat -> nat -> nat -> nat),
   forall (p M : nat -> nat) tr d, (forall j, d j <= M j) -> forall j, dims_run qr_rank p tr d j <= M j.
 Proof. exact ps1_dims_le_limit. Qed.
 Print Assumptions C09_dims_le_limit_ps1.
+
+(* ================================================================== bond limit of the returned state ==== *)
+(* Model/Dims.v: a state is abstracted to its interior bond dimensions; add -> d1+d2, apply -> d_op*d, canonicalise never
+   larger, compress -> the GENERATED kept-count rule Gen/Trunc.compute_m_trunc applied to some non-empty spectrum with at
+   most d_b values.  The Taylor scheme (every order), tdrk4 and the general RK scheme (EVERY tableau) end in the compress
+   of compressed_sum, so for criteria fixed / both every interior bond of the returned state obeys max_dims -- whatever
+   the input, the operator and the singular values were. *)
+Theorem C09_dims_le_limit_pc : forall cfg din dop e d, cfg_criteria cfg <> Threshold ->
+  (exists N, e = taylor_dexp N) \/ e = tdrk4_dexp \/ (exists t, e = rk_dexp t) ->
+  dsem cfg din dop e d -> Forall2 Z.le d (limits cfg (length d)).
+Proof. exact pc_dims_le_limit. Qed.
+Print Assumptions C09_dims_le_limit_pc.
+
+(* adaptive branches: any chain of accepted sub-steps, each starting from the previous result *)
+Theorem C09_dims_le_limit_adaptive : forall cfg dop e din d, cfg_criteria cfg <> Threshold ->
+  (exists N, e = taylor_dexp N) \/ (exists t, e = rk_dexp t) ->
+  substeps cfg dop e din d -> Forall2 Z.le d (limits cfg (length d)).
+Proof.
+  exact (fun cfg dop e din d Hc He => adaptive_dims_le_limit cfg dop e din d Hc
+    match He with or_introl (ex_intro _ N E) => eq_ind_r (fun e => is_compress e = true) (taylor_dexp_top N) E
+                | or_intror (ex_intro _ t E) => eq_ind_r (fun e => is_compress e = true) (rk_dexp_top t) E end).
+Qed.
+Print Assumptions C09_dims_le_limit_adaptive.
+
+(* the interpreter's bound (what the harness compares the implementation's bond_dims with) is sound for every expression *)
+Theorem C09_dims_bound_sound : forall cfg din dop n, cfg_criteria cfg <> Threshold ->
+  (forall b, (0 <= py_index (cfg_max_dims cfg) b)%Z) -> Forall (fun z => (0 <= z)%Z) dop -> length din = n -> length dop = n ->
+  forall e d, dsem cfg din dop e d -> length d = n /\ Forall2 Z.le d (dbound din dop (limits cfg n) e).
+Proof. exact dbound_sound. Qed.
+Print Assumptions C09_dims_bound_sound.
+
+(* two-site projector splitting: every interior bond is re-truncated by _update_mps at least once per step (kept count
+   <= limit: C05_m_le_limit for the generated rule) and afterwards only touched by QR: all bonds obey the limit *)
+Theorem C09_dims_le_limit_ps2 : forall (kept : nat -> Z) (qr : nat -> Z -> Z) (M : nat -> Z),
+  (forall l, (kept l <= M l)%Z) -> (forall b x, (qr b x <= x)%Z) ->
+  forall n (dt : Q) (to_right : bool) d b, 2 <= n -> b < n - 1 ->
+  let q := if to_right then 0 else n - 1 in
+  (ps2_dims_run kept qr (ps2_step n to_right q dt) d b <= M b)%Z.
+Proof. exact ps2_dims_le_limit. Qed.
+Print Assumptions C09_dims_le_limit_ps2.
+
+(* non-vacuity: a spectrum of three values cut at a bond with limit 2 keeps 2; the interpreter's bound of an RK4 step *)
+Example C09_dims_example :
+  dsem (mk_config Fixed (1 # 1000) [1; 2; 1]%Z) [3%Z] [4%Z] (DCompress DIn) [2%Z]
+  /\ dbound [2; 2]%Z [3; 3]%Z [5; 5]%Z (rk_dexp tab_5) = [5; 5]%Z
+  /\ dbound [2; 2]%Z [3; 3]%Z [100; 100]%Z (taylor_dexp 1) = [8; 8]%Z.
+Proof.
+  split; [|split; vm_compute; reflexivity].
+  apply SCompress with (da := [3%Z]); [constructor|].
+  apply CutCons with (sigma := [1; 1; 1]%Q) (idx := 1%Z) (left := false); try reflexivity; try discriminate; try (cbn; apply Z.le_refl); constructor.
+Qed.
 
 Example C09_ps_example :
   ps1_step 3 true 0 1 =
